@@ -60,6 +60,17 @@ static void do_hmm5(char **w)
     ckd_free_2d(sseq);
 }
 
+/* fsg_history_entry_add() takes the right-context set by value; a refactoring that passes it by reference must not stop this
+ * harness from compiling (the whole-utterance cases then judge the behaviour): dispatch on the declared type. */
+typedef void (*add_val_t)(fsg_history_t *, fsg_link_t *, int32, int32, int32, int32, fsg_pnode_ctxt_t);
+typedef void (*add_ptr_t)(fsg_history_t *, fsg_link_t *, int32, int32, int32, int32, fsg_pnode_ctxt_t *);
+static void add_by_val(void (*f)(void), fsg_history_t *h, fsg_link_t *l, int32 fr, int32 sc, int32 pred, int32 lc, fsg_pnode_ctxt_t *rc)
+{ ((add_val_t)f)(h, l, fr, sc, pred, lc, *rc); }
+static void add_by_ptr(void (*f)(void), fsg_history_t *h, fsg_link_t *l, int32 fr, int32 sc, int32 pred, int32 lc, fsg_pnode_ctxt_t *rc)
+{ ((add_ptr_t)f)(h, l, fr, sc, pred, lc, rc); }
+#define ENTRY_ADD(h, l, fr, sc, pred, lc, rcp) \
+    _Generic(&fsg_history_entry_add, add_ptr_t: add_by_ptr, default: add_by_val)((void (*)(void))fsg_history_entry_add, h, l, fr, sc, pred, lc, rcp)
+
 static void do_hist(char **w, int n)
 {
     static fsg_model_t fsg;
@@ -82,7 +93,7 @@ static void do_hist(char **w, int n)
             char *tok = strtok(p, ",");
             while (tok) { int r = atoi(tok); rc.bv[r >> 5] |= (1u << (r & 31)); tok = strtok(NULL, ","); }
         }
-        fsg_history_entry_add(h, &link, 0, atoi(w[2 + 3 * i]), atoi(w[2 + 3 * i + 2]), 0, rc);
+        ENTRY_ADD(h, &link, 0, atoi(w[2 + 3 * i]), atoi(w[2 + 3 * i + 2]), 0, &rc);
     }
     printf("hist");
     for (gn = h->frame_entries[0][0]; gn; gn = gnode_next(gn)) {
